@@ -261,7 +261,9 @@ func EnsureRawValue(in interface{}) reflect.Value {
 		return v
 	}
 	if v, ok := in.(*_refHolder); ok {
-		in = v.value
+		// the holder's value already is a reflect.Value: wrapping it again would
+		// yield a Value describing the reflect.Value struct itself
+		return v.value
 	}
 	return reflect.ValueOf(in)
 }
